@@ -55,7 +55,9 @@ theorem no_creation_while_paused (sp : Spec) (w : World) (ev : Event)
               · unfold ids; rw [(checkAffected_tasks sp _ t).1]
           · split
             · rfl
-            · simp [ids, setTask_ids]
+            · split
+              · rfl
+              · simp [ids, setTask_ids]
       | rpcResult t ok =>
         simp only
         split
@@ -76,7 +78,7 @@ theorem no_creation_while_paused (sp : Spec) (w : World) (ev : Event)
               · split
                 · rfl
                 · split
-                  · simp [ids, setTask_ids]
+                  · split <;> simp [ids, setTask_ids]
                   · split
                     · refine ((completeTask_inert sp _ _ _ ?_).1).trans ?_
                       · simpa using hinert
@@ -118,7 +120,7 @@ theorem paused_stays_paused (sp : Spec) (w : World) (ev : Event) (hp : w.wf = .P
               · rw [(checkAffected_tasks sp _ t).2]; exact hp
           · split
             · exact hp
-            · exact hp
+            · split <;> exact hp
       | rpcResult t ok =>
         simp only
         split
@@ -139,7 +141,7 @@ theorem paused_stays_paused (sp : Spec) (w : World) (ev : Event) (hp : w.wf = .P
               · split
                 · exact hp
                 · split
-                  · exact hp
+                  · split <;> exact hp
                   · split
                     · refine ((completeTask_inert sp _ _ _ ?_).2).trans ?_
                       · simpa using hinert
